@@ -115,12 +115,12 @@ namespace {
       const double seps = static_cast<double>(st.seps);
       const auto h = Hosford<double>{2.}.template second<N>(s, seps);
       const auto m = Mises{}.template second<N>(s, seps);
-      c.close(std::get<0>(h), std::get<0>(m), 64 * 2 * st.Eeig() * st.vm, "C22.hosford.a2_is_mises",
+      c.close(std::get<0>(h), std::get<0>(m), 512 * st.Eeig() * st.vm, "C22.hosford.a2_is_mises",
               "Hosford(a=2) vs sigmaeq");
-      closeM(c, toM<N>(std::get<1>(h)), toM<N>(std::get<1>(m)), 64 * 2 * st.En(true),
+      closeM(c, toM<N>(std::get<1>(h)), toM<N>(std::get<1>(m)), 512 * st.En(true),
              "C22.hosford.a2_is_mises", "normal of Hosford(a=2) vs 3/2 dev(s)/seq", N);
       constexpr int n = N == 1 ? 3 : (N == 2 ? 4 : 6);
-      const R t = 64 * 2 * st.En(true) / std::min(R(1), st.gap) / st.vm;
+      const R t = 512 * st.En(true) / std::min(R(1), st.gap) / st.vm;
       for (int i = 0; i < n; ++i)
         for (int j = 0; j < n; ++j)
           c.close(std::get<2>(h)(i, j), std::get<2>(m)(i, j), t, "C22.hosford.a2_is_mises_second",
